@@ -7,6 +7,7 @@ wt = sys.argv[2] if len(sys.argv) > 2 else f"/tmp/seedwork/{pid}"
 out = sys.argv[3] if len(sys.argv) > 3 else f"/tmp/seed-out/{pid}"
 first = int(sys.argv[4]) if len(sys.argv) > 4 else 1      # numbering of the changes (round 2 uses 3 and 4)
 second = first + 1
+focus = sys.argv[5] if len(sys.argv) > 5 else ""
 p = next(json.loads(l) for l in open('/verif/properties.jsonl') if json.loads(l)['id'] == pid)
 print(f"""You are helping to evaluate a verification tool for the Rust library rxRust (a Reactive Extensions library). Your job is to play the role of a developer who introduces a subtle regression.
 
@@ -23,6 +24,8 @@ Produce TWO independent, different source changes to the library (call them {fir
   (b) still COMPILES, and the library's existing test-suite (`cargo test --offline --lib`, plus doc tests if you can: `cargo test --offline --doc`) still PASSES with the change applied,
   (c) is REALISTIC: the kind of slip a maintainer could make in a refactoring or an optimisation (a moved line, a dropped take()/check, a wrong comparison, a lock released too early, state hoisted into the wrong place, ...), small (a few lines), not an obviously sabotaging change, no new dependencies, no cfg tricks, no change to tests,
   (d) needs SOMETHING SPECIFIC to manifest -- a particular interleaving of events of several inputs, an event after a terminal, a particular multi-step sequence of operations, an unusual parameter or input, a particular scheduler order or thread interleaving, or two cooperating sites that each look fine alone -- rather than something that ordinary use of the operator would expose at once.
+
+{focus}
 
 For each change i in {{{first},{second}}} write into {out}/i/ :
   - patch.diff : the change as produced by `git -C {wt} diff` (must apply with `git apply` to the pinned commit; only files under src/),
